@@ -303,6 +303,9 @@ type YW struct {
 	ParkStoreCalls bool
 	// Metrics: Store and Syncer are built with their metrics on (configuration knob)
 	Metrics bool
+	// OracleAttrs are added to the attributes of storage-oracle violations (so that a listed
+	// finding can be told from others of the same class)
+	OracleAttrs map[string]string
 }
 
 // newYW builds a chain whose head is at height `age` now and that keeps growing
@@ -538,7 +541,11 @@ func (w *YW) checkStoreOnce(why string, needContiguous, deferGap bool) (gapSeen 
 				if deferGap {
 					return true
 				}
-				s.Violate("gap-in-store", map[string]string{"where": "outside"}, "[%s] height %d is stored outside Tail=%d..Head=%d", why, h, tail.Height(), head.Height())
+				at := map[string]string{"where": "outside"}
+				for k, v := range w.OracleAttrs {
+					at[k] = v
+				}
+				s.Violate("gap-in-store", at, "[%s] height %d is stored outside Tail=%d..Head=%d", why, h, tail.Height(), head.Height())
 				return false
 			}
 		}
